@@ -3,6 +3,7 @@ package server
 import (
 	"encoding/json"
 	"log"
+	"reflect"
 	"sync"
 
 	"github.com/cenkalti/rpc2"
@@ -128,11 +129,37 @@ func filterColumns(row *ovsdb.Row, columns map[string]bool) *ovsdb.Row {
 	}
 	new := make(ovsdb.Row, len(*row))
 	for k, v := range *row {
-		if _, ok := columns[k]; ok {
+		// no columns means all columns
+		if _, ok := columns[k]; ok || columns == nil {
 			new[k] = v
 		}
 	}
 	return &new
+}
+
+// monitoredColumns returns the columns to be monitored for a table, nil if all
+// columns are to be monitored (no columns requested)
+func (m *monitor) monitoredColumns(table string) map[string]bool {
+	request := m.request[table]
+	if request == nil || request.Columns == nil {
+		return nil
+	}
+	cols := make(map[string]bool)
+	cols["_uuid"] = true
+	for _, c := range request.Columns {
+		cols[c] = true
+	}
+	return cols
+}
+
+// monitorSelect returns what is to be monitored for a table, everything if
+// nothing specific was requested
+func (m *monitor) monitorSelect(table string) ovsdb.MonitorSelect {
+	request := m.request[table]
+	if request == nil || request.Select == nil {
+		return ovsdb.MonitorSelect{}
+	}
+	return *request.Select
 }
 
 func (m *monitor) filter(update database.Update) ovsdb.TableUpdates {
@@ -146,30 +173,30 @@ func (m *monitor) filter(update database.Update) ovsdb.TableUpdates {
 			continue
 		}
 		tu := ovsdb.TableUpdate{}
-		cols := make(map[string]bool)
-		cols["_uuid"] = true
-		for _, c := range m.request[table].Columns {
-			cols[c] = true
-		}
+		cols := m.monitoredColumns(table)
+		sel := m.monitorSelect(table)
 		_ = update.ForEachRowUpdate(table, func(uuid string, ru2 ovsdb.RowUpdate2) error {
 			ru := &ovsdb.RowUpdate{}
 			ru.FromRowUpdate2(ru2)
 			switch {
-			case ru.Insert() && m.request[table].Select.Insert():
+			case ru.Insert() && sel.Insert():
 				fallthrough
-			case ru.Modify() && m.request[table].Select.Modify():
+			case ru.Modify() && sel.Modify():
 				fallthrough
-			case ru.Delete() && m.request[table].Select.Delete():
-				if len(cols) == 0 {
-					return nil
-				}
+			case ru.Delete() && sel.Delete():
 				ru.New = filterColumns(ru.New, cols)
 				ru.Old = filterColumns(ru.Old, cols)
+				if ru.Modify() && reflect.DeepEqual(*ru.New, *ru.Old) {
+					// none of the monitored columns changed
+					return nil
+				}
 				tu[uuid] = ru
 			}
 			return nil
 		})
-		tus[table] = tu
+		if len(tu) > 0 {
+			tus[table] = tu
+		}
 	}
 	return tus
 }
@@ -185,29 +212,29 @@ func (m *monitor) filter2(update database.Update) ovsdb.TableUpdates2 {
 			continue
 		}
 		tu2 := ovsdb.TableUpdate2{}
-		cols := make(map[string]bool)
-		cols["_uuid"] = true
-		for _, c := range m.request[table].Columns {
-			cols[c] = true
-		}
+		cols := m.monitoredColumns(table)
+		sel := m.monitorSelect(table)
 		_ = update.ForEachRowUpdate(table, func(uuid string, ru2 ovsdb.RowUpdate2) error {
 			switch {
-			case ru2.Insert != nil && m.request[table].Select.Insert():
+			case ru2.Insert != nil && sel.Insert():
 				fallthrough
-			case ru2.Modify != nil && m.request[table].Select.Modify():
+			case ru2.Modify != nil && sel.Modify():
 				fallthrough
-			case ru2.Delete != nil && m.request[table].Select.Delete():
-				if len(cols) == 0 {
-					return nil
-				}
+			case ru2.Delete != nil && sel.Delete():
 				ru2.Insert = filterColumns(ru2.Insert, cols)
 				ru2.Modify = filterColumns(ru2.Modify, cols)
 				ru2.Delete = filterColumns(ru2.Delete, cols)
+				if ru2.Modify != nil && len(*ru2.Modify) == 0 {
+					// none of the monitored columns changed
+					return nil
+				}
 				tu2[uuid] = &ru2
 			}
 			return nil
 		})
-		tus2[table] = tu2
+		if len(tu2) > 0 {
+			tus2[table] = tu2
+		}
 	}
 	return tus2
 }
